@@ -4,9 +4,10 @@ import itertools
 import compat  # noqa: F401
 from props.base import to_request, corpus_for  # noqa: F401
 from props import dbcommon
+from props import c05_api
 
 ID = 'C05'
-LEAN_MODULES = ['PybtexModel.Props.C05']
+LEAN_MODULES = ['PybtexModel.Props.C05', 'PybtexModel.Props.C05x']
 THEOREMS = {
     'C05_reader_wf': 'domain: every database the reader builds from a file of well-formed entries (filtered by citations or not) satisfies DbWF, and reading never raises: the hypothesis DbWF of the theorems below is a container invariant, no hidden restriction',
     'C05_expand_spec': 'the cited part of the result = case-insensitive de-duplication (first spelling wins) of the citation list with * replaced in place by all database keys in database order',
@@ -23,6 +24,17 @@ THEOREMS = {
     'C05_filtered_eq_unfiltered_partial': 'reading restricted to the wanted citations then resolving gives the same keys (and the same dangling references of cited entries) as reading everything then resolving, up to key case, provided every referenced parent is cited or follows a cited child that references it',
     'C05_filtered_neg': 'witness: an uncited parent that precedes its only child is lost by the filtered reading (finding C05-filtered-parent-before-child)',
     'C05_filtered_entries_partial': 'under the strong ordering proviso (the FIRST entry of an uncited parent follows a cited child that references it, and its own cross-reference target is cited, absent or later still) the filtered reading stores the same ENTRY (type, fields, persons) under every resolved key as the unfiltered one and gives the same keys and reports',
+    'C05_constants_tied': "[tie to the source] the constants the model and the specification hard-code equal the ones harness/tablegen/c05.py reads from /repo on every run: the cross-reference field name, the wildcard, the engines' default citations = ['*'], one common default min_crossrefs in the five signatures that have one, one wording of the missing-entry report in both engines",
+    'C05_constructor_eq_reader': 'for every wanted set and entry sequence, BibliographyData(entries, wanted_entries) / add_entries builds the same database with the same reports as the .bib reader does from a file with those entries (the SkipEntry test decides nothing add_entry would not): no hypothesis',
+    'C05_format_bibliography_spec': "hypothesis DbWF db (container invariant, C05_reader_wf): format_bibliography(db, citations) never ends in KeyError, formats exactly the resolved citations that have an entry, in order, each under the DATABASE's spelling of its key, reports the dangling cross-references of the resolved list and then every resolved key without entry as missing",
+    'C05_none_is_whole_database': "hypothesis DbWF db: format_bibliography(db) with citations=None equals format_bibliography(db, ['*']), formats every entry in database order under the database's keys (also when a key is *), appends nothing, reports no missing entry and exactly the dangling cross-references of all entries",
+    'C05_read_whole_first_wins': "for every file of well-formed entries: reading it whole never raises, the database is the specification's readAll of the file (first entry of every key up to case, file order, spelled as there) and exactly the later entries whose key is already there are reported as repeated, in file order (reference values of the oracle clause read_first_wins)",
+    'C05_style_whole_spec': 'for every file of well-formed entries, citation list and threshold (no hypothesis on the database): format_bibliography(parse(file), citations) never raises, formats exactly the citations resolved against readAll(file) that have an entry, in order, under the spelling of the first entry of that key in the file, reports the dangling cross-references of the resolved list and then the resolved keys without entry',
+    'C05_python_engine_factors': '[model wiring] the Python engine = filtered reading, then format_bibliography(db, citations), reader reports first',
+    'C05_min_crossrefs_floor': 'hypothesis DbWF db and min_crossrefs <= 1: add_extra_citations(citations, min_crossrefs) = add_extra_citations(citations, 1), keys and reports',
+    'C05_fold_is_python_lower_partial': "PARTIAL: for every key in foldDomain (decidable: no capital sigma, and str.lower() of every character is the one character the ASCII folding gives) the ASCII folding `lower` of all C05 models/specs equals the model lowerPy of Python's whole-string str.lower() over the interpreter's regenerated tables",
+    'C05_fold_ascii': 'every string of code points < 128 is in foldDomain (table fact, kernel-evaluated)',
+    'C05_fold_neg': "witness: for 'É' the ASCII folding differs from str.lower(): keys with non-ASCII characters that str.lower() changes are outside the modelled domain",
     'C05_filtered_entries_neg': 'witness: a duplicate of an uncited parent before its child: same keys, but the filtered reading stores the later duplicate and reports no repeated entry (finding C05-filtered-duplicate-parent)',
 }
 RULE = ('exhaustive: every file of <=N entries (keys a, B, c in that order; N=2 quick, 3 thorough) x every crossref assignment '
@@ -32,11 +44,16 @@ RULE = ('exhaustive: every file of <=N entries (keys a, B, c in that order; N=2 
         'with duplicate keys (also duplicates of uncited parents around their children); values with @ " = # ( ) and braces, also '
         'whole fake entries, in cited and uncited entries; the same files given as two or three .bib files to one reader / engine run; '
         'appended parents with cross-references of their own (dangling, before, after); the odd keys * and empty cross-references; '
+        'plus keys with non-ASCII characters that str.lower() leaves alone (cited in both letter cases of their ASCII letters; as parents of two and three children); '
+        'plus function-level families that call the anchored methods DIRECTLY on a database built by BibliographyData(entries=...): the constructor / '
+        'add_entries / want_entry / get_canonical_key (every sequence of <=3 keys over a, A, B, c x wanted sets), _get_crossreferenced_citations and '
+        '_expand_wildcard_citations on raw lists, both remove_missing_citations, format_bibliography with citations None / given and min_crossrefs '
+        'default / given, both engines with the defaults of their signatures, str.lower() of keys; every report also compared as full message text; '
         'plus seeded random larger files.  non-trivial = some entry has a crossref and the citation list is non-empty; distinct by case JSON')
-TRUSTED = ['str.lower is ASCII in the model (keys are drawn from ASCII)',
+TRUSTED = ["keys are folded with ASCII lower-casing in the model; proved equal to the model of str.lower() on foldDomain (all ASCII keys and keys whose non-ASCII characters str.lower() leaves alone: C05_fold_is_python_lower_partial, C05_fold_ascii); generators stay inside foldDomain, the op `fold` compares str.lower() with the model on every code point below U+0250 and Greek/Cyrillic/Armenian",
            'the .bib text generated from a case is parsed by the real reader; C01 is about that reader',
            'the Python engine shows a note through the unsrt misc template: the rendered text is the note without braces plus a final period']
-ASSUMPTIONS = ['keys and field names are ASCII without braces/commas/white space; values are ASCII without backslash and %, braces balanced, '
+ASSUMPTIONS = ['keys are without braces/commas/white space, ASCII or with non-ASCII characters that str.lower() leaves alone (ß ς ŉ ǰ ﬁ é ж 日 ſ ...; foldDomain); field names are ASCII; values are ASCII without backslash and %, braces balanced, '
                'white space normalised (C01 is about everything else a value can be)',
                'problems are observed in capture mode (errors.capture), i.e. every report is collected',
                'the model follows the code with proposed_fixes/C05-2 applied (dangling cross-reference of an appended parent is reported)']
@@ -175,8 +192,8 @@ def _style_whole(txts, cits, m, by_name=False):
 
 
 def compare_view(io_):
-    """`style_whole` is judged by the oracle only (the model has the engine entry points, which read filtered)"""
-    return dict((k, v) for k, v in io_.items() if k != 'style_whole') if isinstance(io_, dict) else io_
+    """everything is compared (`style_whole` has been inside the model since Model/CitationsX.lean: `styleWhole`)"""
+    return io_
 
 
 def _by_name(case):
@@ -186,6 +203,8 @@ def _by_name(case):
 
 
 def impl(case):
+    if case['op'] != 'resolve':
+        return c05_api.IMPL[case['op']](case)
     txts = texts(case)
     cits, m = case['citations'], case['min_crossrefs']
     bn = _by_name(case)
@@ -195,6 +214,8 @@ def impl(case):
 
 
 def model_out(case, reply):
+    if case['op'] != 'resolve':
+        return c05_api.model_out(case, reply)
     out = reply['out']
     py = out.get('python')
     if isinstance(py, dict) and isinstance(py.get('notes'), list):
@@ -206,9 +227,15 @@ def model_out(case, reply):
 
 
 def valid_case(case):
+    if isinstance(case, dict) and case.get('op') in c05_api.IMPL:
+        return c05_api.valid_case(case)
+    if isinstance(case, dict) and isinstance(case.get('file'), list) and c05_api.has_unicode(case):
+        return valid_case(c05_api.asciified(case))
     if not ({'op', 'file', 'citations', 'min_crossrefs'} <= set(case) <= {'op', 'file', 'citations', 'min_crossrefs', 'split'}) or case['op'] != 'resolve':
         return False
     if not dbcommon.valid_file(case['file'], allow_empty=True, rich_values=True, odd_keys=True):
+        return False
+    if any(e['type'].lower() != 'misc' for e in case['file']):   # the Python engine formats through the unsrt template of @misc
         return False
     if any(len(v) > 60 for e in case['file'] for _n, v in e['fields']):   # write$ breaks lines at 79 columns
         return False
@@ -286,6 +313,27 @@ def explain_duplicate_parent(case):
                   if any(o < child for o in _occurrences(case, x)) and any(o > child for o in _occurrences(case, x)))
 
 
+def explain_duplicate_chain(case):
+    """Finding C05-filtered-duplicate-parent-chain: keys that are not cited, occur more than once in the file, and whose FIRST entry
+    stands before the entry that makes the key wanted in the filtered reading -- a cited child, or an uncited parent that has itself
+    become wanted (the wanted set grows while the file is read) -- while a LATER entry stands after it: the filtered reading stores
+    the later one.  Found by replaying the growth of the wanted set over the file."""
+    cits = case['citations']
+    if '*' in cits:
+        return []
+    low = set(_low(cits))
+    wanted, stored = set(low), {}
+    for i, e in enumerate(case['file']):
+        k = e['key'].lower()
+        if k in wanted and k not in stored:
+            stored[k] = i
+            x = _xref(e)
+            if x is not None:
+                wanted.add(x.lower())
+    first = _first(case)
+    return sorted(k for k, i in stored.items() if k not in low and first[k] != i)
+
+
 def explain_grandparent(case):
     """Finding C05-filtered-grandparent-before-parent: an uncited parent x (kept by the filtered reading: an entry of it follows
     a cited child) whose own cross-reference target y is in the file, is not cited, and occurs only before the entry of x
@@ -319,6 +367,8 @@ def _repeated(mode):
 
 def oracle(case, impl_out, reply):
     """The clauses of the property, evaluated on the implementation with the spec's values."""
+    if case['op'] != 'resolve':
+        return c05_api.oracle(case, impl_out, reply)
     spec = reply['spec']
     cits = case['citations']
     fails = []
@@ -362,6 +412,7 @@ def oracle(case, impl_out, reply):
     lost = explain_filtered(case) if not spec['proviso'] else []
     dup = explain_duplicate_parent(case) if not spec['proviso_strong'] else []
     grand = explain_grandparent(case) if not spec['proviso_strong'] else []
+    chain = explain_duplicate_chain(case) if not spec['proviso_strong'] else []
     lowrep = lambda rs: [r[:1] + _low(r[1:]) for r in rs]   # noqa: E731
     keys_ok = _low(f['resolved']) == _low(spec['resolved'])
     exp_low = set(_low(spec['expanded']))
@@ -385,6 +436,8 @@ def oracle(case, impl_out, reply):
                 tag = 'filtered_eq_unfiltered_parent_first'
             elif k in dup:
                 tag = 'filtered_entries_duplicate_parent'
+            elif k in chain:
+                tag = 'filtered_entries_duplicate_chain'
             else:
                 tag = 'filtered_entries'
             fails.append('%s: under key %r the reading with wanted_entries=citations stores %r (repeated-entry reports %r); reading everything stores %r (%r)' % (
@@ -411,7 +464,7 @@ def oracle(case, impl_out, reply):
             for k, got in zip(_low(e['keys']), e['notes']):
                 exp = want_note.get(k) if side == 'bibtex' else py_note(want_note.get(k))
                 if got != exp:
-                    tag = 'engine_entries_duplicate_parent' if k in dup else 'engine_entries'
+                    tag = 'engine_entries_duplicate_parent' if k in dup else 'engine_entries_duplicate_chain' if k in chain else 'engine_entries'
                     fails.append('%s: %s engine shows the note %r for %r, the entry that counts for that key has %r' % (tag, side, got, k, exp))
         miss = [r[1] for r in e['reports'] if r[0] == 'missing']
         if _low(miss) != _low(spec['missing']) and spec['proviso']:
@@ -480,15 +533,29 @@ def _grandparent_first(case, impl_out, text):
     return bool(explain_grandparent(case))
 
 
+def _duplicate_chain(case, impl_out, text):
+    """Matcher for finding C05-filtered-duplicate-parent-chain: the entry stored / shown under an uncited key differs, and replaying the
+    growth of the wanted set says the filtered reading stores a later duplicate of that very key."""
+    tag = text.split(':')[0]
+    if tag not in ('filtered_entries_duplicate_chain', 'engine_entries_duplicate_chain'):
+        return False
+    return any(repr(k) in text for k in explain_duplicate_chain(case))
+
+
 KNOWN_MATCHERS = {'C05-filtered-parent-before-child': _parent_first,
+                  'C05-filtered-duplicate-parent-chain': _duplicate_chain,
                   'C05-filtered-duplicate-parent': _duplicate_parent,
                   'C05-filtered-grandparent-before-parent': _grandparent_first}
 
 
 def buckets(case, impl_out):
+    if case['op'] != 'resolve':
+        return c05_api.buckets(case, impl_out)
     b = ['n=%d' % len(case['file']), 'cits=%d' % len(case['citations']), 'm=%d' % case['min_crossrefs']]
     if '*' in case['citations']:
         b.append('wildcard')
+    if c05_api.has_unicode(case):
+        b.append('non_ascii_keys')
     if case.get('split'):
         b.append('files=%d' % (len(case['split']) + 1))
     if any(not dbcommon.VALUE_OK.match(v) for e in case['file'] for _n, v in e['fields']):
@@ -524,6 +591,8 @@ def buckets(case, impl_out):
 
 
 def nontrivial(case, impl_out):
+    if case['op'] != 'resolve':
+        return c05_api.nontrivial(case, impl_out)
     return bool(case['citations']) and any(_xref(e) is not None for e in case['file'])
 
 
@@ -577,7 +646,7 @@ def _duplicates(tier):
     return cases
 
 
-POOL = ['k1', 'K2', 'knuth84', 'Lam:86', 'x', 'Y', 'book-1', 'Proc.A', 'zeta', 'Eta']
+POOL = ['k1', 'K2', 'knuth84', 'Lam:86', 'x', 'Y', 'book-1', 'Proc.A', 'zeta', 'Eta', 'Weiß2004', 'ﬁx', 'ς1a', 'Straße']
 
 
 def _competing(tier):
@@ -686,9 +755,10 @@ def _variant(rng, k):
     r = rng.random()
     if r < 0.6:
         return k
+    # only the ASCII letters change case: that is what str.lower() undoes whatever else the key contains ('ß'.upper() is 'SS')
     if r < 0.8:
-        return k.swapcase()
-    return k.upper() if rng.random() < 0.5 else k.lower()
+        return c05_api.ascii_swap(k)
+    return ''.join((c.upper() if c.isascii() else c) for c in k) if rng.random() < 0.5 else ''.join((c.lower() if c.isascii() else c) for c in k)
 
 
 def _rich(rng, keys):
@@ -751,6 +821,7 @@ def gen_cases(tier, rng, info):
             ('the entries spread over two or three files read by one reader', _two_files(tier)),
             ('every order of child / parent / grandparent (+ a duplicate of the parent or a second child), children cited', _parents_of_parents(tier)),
             ('key *, cross-references to * and to the empty key, min_crossrefs 0..2', _odd(tier))]
+    fams += c05_api.families(tier, _entry, _cit_lists)
     for _name, fam in fams:
         cases += fam
     info['exhaustive'] = True
@@ -786,4 +857,8 @@ LEVEL_NOTE = ('Trusted: Lean kernel; axioms propext/Classical.choice/Quot.sound 
               'tail there; C05_expand_spec + C05_crossref_spec determine the whole list).  For the Python engine C05_missing_reported proves the emitted '
               'keys only up to letter case.  Databases are abstract (key, entry) lists, DbWF / EntryWF are container invariants every reader-built '
               'database satisfies (C05_reader_wf); keys compare by ASCII lower-casing (C01\'s reader folds with Unicode str.lower(): non-ASCII keys are '
-              'differential only); min_crossrefs <= 0 behaves as 1.')
+              'differential only) - that folding is proved equal to the model of str.lower() on foldDomain (every ASCII key, every key whose non-ASCII '
+              'characters str.lower() leaves alone) and is wrong outside it (C05_fold_neg: keys with non-ASCII capitals are not modelled, generators keep them out); '
+              'min_crossrefs <= 1 behaves as 1 (C05_min_crossrefs_floor).  Constants (crossref, *, default citations / min_crossrefs, message templates) are '
+              'regenerated from /repo on every run (Gen/C05Consts.lean, C05_constants_tied).  The constructor path, format_bibliography on a given database '
+              '(citations None included) and the engines\' defaults are inside the model (Model/CitationsX.lean) with function-level correspondence ops.')
